@@ -154,6 +154,17 @@ CHECKS = {
              "(InnerOnlyAfterHandshake, NoPlainBeforeTls).",
         note="The model is thin (one negotiation rule per construction path); the assurance is the exhaustive configuration "
              "replay. SSLv3 cannot be offered in this sandbox (absent from both OpenSSL builds)."),
+    "C14": dict(
+        engine="Upload", design="8 C14, 5.4, Appendix J", level="fault_enumeration",
+        text="TLC checks OnlyInside, Authorised, NonSuccessLeavesTreeUnchanged, SuccessChangesExactlyTarget on Upload over 216 216 "
+             "(tree, request, fault) cases; all 11 link-slot trees x all 91 paths with randomly drawn request dimensions, plus "
+             "hundreds of storage-fault cases, are executed through the real protocol (random read segmentation, surplus bytes "
+             "after the declared size) into the real FileUploadHandler on a materialised tree, storage faults being produced by "
+             "the OS in a forked child (RLIMIT_FSIZE = disk full after k bytes, uid 65534 = permission error); a recursive "
+             "before/after snapshot of the upload directory and its surroundings is projected onto the model's change record "
+             "and judged by TLC (formulas on the observation + agreement with Handle).",
+        note="Trusted: TLC; POSIX semantics of the sandbox file system; directories created for an upload are not counted as files.",
+        technique="TLA+ spec + TLC model checking; OS-level storage-fault enumeration on the real handler, judged by a TLC observation spec"),
 }
 
 ORDER = ["C01", "C02", "C03", "C04", "C05", "C06", "C07", "C08", "C09", "C10", "C11", "C12", "C13", "C14", "C15",
